@@ -37,12 +37,12 @@ RULE = (
     "result with >= 2 rows was returned and judged); distinct = digest of the logged inputs."
 )
 STRATA = {
-    "conv": (2600, 80000),
-    "cigar": (1500, 36000),
-    "helpers": (2200, 66000),
-    "slicing": (2200, 66000),
-    "msa": (1500, 36000),
-    "pairwise": (1000, 36000),
+    "conv": (2600, 110000),
+    "cigar": (1500, 60000),
+    "helpers": (2200, 90000),
+    "slicing": (2200, 90000),
+    "msa": (1500, 60000),
+    "pairwise": (1000, 40000),
 }
 REQUIRED_ORACLES = [
     "invariant_hook", "produced_alignment_valid",
@@ -112,7 +112,8 @@ MANIFEST = {
                   "scores), numpy, and that the generated C corresponds to the .pyx (no Cython here).  Lengths <= 30, <= 8 "
                   "sequences.  Reordering selections and sequence sub-selections are judged by the selection model only.  Findings "
                   "are quarantined as triggers with probes: align_multiple on pairs with S_max == S_rand (ZeroDivisionError), matrix "
-                  "alphabets >= 256 symbols with 8-bit codes, mixed code dtypes, Alignment[int] and Alignment[array, array].",
+                  "alphabets >= 256 symbols with 8-bit codes, mixed code dtypes, Alignment[int] and Alignment[array, array], and "
+                  "(found by UBSan, mechanism belongs to C09) semi-global align_banded with an affine penalty.",
     "design_ref": "DESIGN.md section 6, C11",
 }
 
